@@ -1,4 +1,5 @@
 """Recognisers shared by several properties (anchors are def paths and types, never lines or text)."""
+import re
 from . import mir
 from .mir import callee_is, callee_name, strip_generics, walk, op_place, const_int
 
@@ -370,8 +371,68 @@ def constraints_for(ix, body, sym, block, _depth=0):
                 vals.append(names.get(v, v) if names else v)
         if t.get("discr_ty") == "bool":
             vals = [bool(v) != neg if isinstance(v, int) else v for v in vals]
+        # discr(c.opposite()) in {White} is discr(c) in {Black} (Color::opposite's table is decided by C04)
+        if e[0] == "discr":
+            inner = mir.strip_copies(e[1])
+            if inner[0] == "call" and isinstance(inner[1], str) and inner[1].endswith("piece::Color::opposite") and len(inner[2]) == 1 \
+                    and all(v in ("White", "Black") for v in vals):
+                e = ("discr", inner[2][0])
+                vals = ["Black" if v == "White" else "White" for v in vals]
         out.append((mir.expr_str(e), frozenset(vals), d, e))
+        # `x == Enum::Variant` through a derived PartialEq is the same test as `match x { Enum::Variant => .. }`:
+        # add the discriminant form next to the call form so that rules written for either spelling see it
+        dq = _eq_as_discr(ix, e, vals)
+        if dq is not None and not any(o[0] == mir.expr_str(dq[0]) and o[1] == dq[1] for o in out):
+            out.append((mir.expr_str(dq[0]), dq[1], d, dq[0]))
     return out
+
+
+_DERIVED_EQ = {}
+
+
+def _derived_discr_eq(ix, callee):
+    """Is `callee` a `<T as PartialEq>::eq` / `ne` of the crate whose body compares the two discriminants and
+    nothing else (the derive on a field-less enum)?  Returns (type path, is_ne) or None."""
+    key = (id(ix), callee)
+    if key in _DERIVED_EQ:
+        return _DERIVED_EQ[key]
+    res = None
+    m = re.match(r"^<(.+) as std::cmp::PartialEq>::(eq|ne)$", callee or "")
+    if m:
+        ty, which = m.group(1), m.group(2)
+        eqb = ix.bodies.get("<%s as std::cmp::PartialEq>::eq" % ty)
+        a = ix.adts.get(ty)
+        if eqb is not None and a is not None and a["kind"] == "Enum" and all(not v["fields"] for v in a["variants"]):
+            r = mir.Sym(eqb, ix).local(0)
+            if (r[0] == "bin" and r[1] == "Eq" and r[2][0] == "discr" and r[3][0] == "discr"
+                    and {mir.expr_str(mir.strip_refs(r[2][1])), mir.expr_str(mir.strip_refs(r[3][1]))} == {"self", "other"}):
+                if which == "eq" or ("<%s as std::cmp::PartialEq>::ne" % ty) not in ix.bodies:
+                    res = (ty, which == "ne")
+    _DERIVED_EQ[key] = res
+    return res
+
+
+def _eq_as_discr(ix, e, vals):
+    if not (isinstance(e, tuple) and e[0] == "call" and isinstance(e[1], str) and len(e[2]) == 2):
+        return None
+    if not vals or not all(isinstance(v, bool) for v in vals) or len(set(vals)) != 1:
+        return None
+    d = _derived_discr_eq(ix, e[1])
+    if d is None:
+        return None
+    ty, is_ne = d
+    a, b = mir.strip_refs(e[2][0]), mir.strip_refs(e[2][1])
+    variant = None
+    other = None
+    for x, y in ((a, b), (b, a)):
+        if x[0] == "agg" and x[1] == ty and x[2] and not x[3]:
+            variant, other = x[2], y
+    if variant is None:
+        return None
+    truth = next(iter(vals)) != is_ne
+    names = [v["name"] for v in ix.adts[ty]["variants"]]
+    vs = {variant} if truth else {n for n in names if n != variant}
+    return ("discr", other), frozenset(vs)
 
 
 def resolve_flag(ix, body, sym, discr_op):
